@@ -104,6 +104,67 @@ impl<'ast> Visit<'ast> for Unpack {
     }
 }
 
+/// Does `f` call `encrypt(data)` on its own parameter `data`, with no statement before that call that rebinds
+/// (`let data`, `let mut data`, a pattern binding `data`) or assigns (`data = ..`) it?
+fn encrypts_caller_bytes(f: &syn::ImplItemFn, what: &str) -> Result<bool, String> {
+    let has_param = f.sig.inputs.iter().any(|a| match a {
+        syn::FnArg::Typed(t) => norm(&t.pat) == "data" || norm(&t.pat) == "mutdata",
+        _ => false,
+    });
+    if !has_param {
+        return Err(format!("{what}: no `data` parameter"));
+    }
+    struct V {
+        rebinds_before: bool,
+        seen_encrypt: bool,
+        encrypt_args: Vec<String>,
+    }
+    impl<'ast> Visit<'ast> for V {
+        fn visit_local(&mut self, l: &'ast syn::Local) {
+            // the initialiser is evaluated before the binding takes effect
+            if let Some(init) = &l.init {
+                self.visit_expr(&init.expr);
+            }
+            if !self.seen_encrypt {
+                struct P(bool);
+                impl<'a> Visit<'a> for P {
+                    fn visit_pat_ident(&mut self, p: &'a syn::PatIdent) {
+                        if p.ident == "data" {
+                            self.0 = true;
+                        }
+                        syn::visit::visit_pat_ident(self, p);
+                    }
+                }
+                let mut p = P(false);
+                p.visit_pat(&l.pat);
+                if p.0 {
+                    self.rebinds_before = true;
+                }
+            }
+        }
+        fn visit_expr_assign(&mut self, a: &'ast syn::ExprAssign) {
+            if !self.seen_encrypt && norm(&a.left) == "data" {
+                self.rebinds_before = true;
+            }
+            syn::visit::visit_expr_assign(self, a);
+        }
+        fn visit_expr_call(&mut self, c: &'ast syn::ExprCall) {
+            let f = norm(&c.func);
+            if f == "encrypt" || f.ends_with("self_encryption::encrypt") {
+                self.encrypt_args.push(norm(&c.args));
+                self.seen_encrypt = true;
+            }
+            syn::visit::visit_expr_call(self, c);
+        }
+    }
+    let mut v = V { rebinds_before: false, seen_encrypt: false, encrypt_args: vec![] };
+    v.visit_block(&f.block);
+    if v.encrypt_args.len() != 1 {
+        return Err(format!("{what}: expected exactly one call of encrypt, found {}", v.encrypt_args.len()));
+    }
+    Ok(!v.rebinds_before && (v.encrypt_args[0] == "data" || v.encrypt_args[0] == "data.clone()"))
+}
+
 pub fn generate(repo: &PathBuf) -> Result<String, String> {
     let rel_se = "autonomi/src/self_encryption.rs";
     let rel_utils = "autonomi/src/client/utils.rs";
@@ -244,7 +305,37 @@ pub fn generate(repo: &PathBuf) -> Result<String, String> {
         return Err(format!("{rel_utils}:fetch_from_data_map: unexpected shape"));
     }
 
-    let mut s = header(&format!("{rel_se}, {rel_utils}, {rel_chunks}"));
+    // ---- the put entry points
+    let rel_data = "autonomi/src/client/data/mod.rs";
+    let rel_public = "autonomi/src/client/data/public.rs";
+    let data_mod = parse_file(&repo.join(rel_data))?;
+    let data_pub = parse_file(&repo.join(rel_public))?;
+    let put_private = encrypts_caller_bytes(impl_fn(&data_mod, "Client", None, "data_put")?, &format!("{rel_data}:data_put"))?;
+    let put_public = encrypts_caller_bytes(impl_fn(&data_pub, "Client", None, "data_put_public")?, &format!("{rel_public}:data_put_public"))?;
+    let cost = encrypts_caller_bytes(impl_fn(&data_pub, "Client", None, "data_cost")?, &format!("{rel_public}:data_cost"))?;
+
+    // one download task per data-map entry: the `for info in data_map.infos()` body is the single `download_tasks.push(..)`
+    struct ForInfos(Option<syn::ExprForLoop>);
+    impl<'ast> Visit<'ast> for ForInfos {
+        fn visit_expr_for_loop(&mut self, f: &'ast syn::ExprForLoop) {
+            if self.0.is_none() && norm(&f.expr) == "data_map.infos()" {
+                self.0 = Some(f.clone());
+            }
+            syn::visit::visit_expr_for_loop(self, f);
+        }
+    }
+    let mut fi = ForInfos(None);
+    fi.visit_block(&ffdm.block);
+    let for_infos = fi.0.ok_or(format!("{rel_utils}:fetch_from_data_map: no `for info in data_map.infos()` loop"))?;
+    let every_info = if for_infos.body.stmts.len() == 1 && norm(&for_infos.body).starts_with("{download_tasks.push(") {
+        true
+    } else if norm(&for_infos.body).contains("continue") {
+        false
+    } else {
+        return Err(format!("{rel_utils}:fetch_from_data_map: cannot tell whether every data-map entry gets a download task"));
+    };
+
+    let mut s = header(&format!("{rel_se}, {rel_utils}, {rel_chunks}, {rel_data}, {rel_public}"));
     s.push_str("namespace SafeNet.Gen.SelfEnc\n");
     s.push_str(&format!("/-- `pack_data_map`: the loop returns when `{fits_doc}` -/\n"));
     s.push_str(&format!("def packFits (max size : Nat) : Bool := decide ({fits_expr})\n"));
@@ -259,6 +350,12 @@ pub fn generate(repo: &PathBuf) -> Result<String, String> {
     s.push_str(&format!("def chunksReversedOnReturn : Bool := {}\n", lean_bool(reversed)));
     s.push_str("/-- number of uses of `MAX_CHUNK_SIZE` in `pack_data_map` -/\n");
     s.push_str(&format!("def maxChunkSizeUses : Nat := {uses}\n"));
+    s.push_str("/-- `Client::data_put` / `data_put_public` / `data_cost` call `encrypt(data)` on their `data` parameter, which nothing rebinds or reassigns before -/\n");
+    s.push_str(&format!("def dataPutEncryptsCallerBytes : Bool := {}\n", lean_bool(put_private)));
+    s.push_str(&format!("def dataPutPublicEncryptsCallerBytes : Bool := {}\n", lean_bool(put_public)));
+    s.push_str(&format!("def dataCostEncryptsCallerBytes : Bool := {}\n", lean_bool(cost)));
+    s.push_str("/-- `fetch_from_data_map` pushes one download task for every entry of `data_map.infos()` (its loop body has no `continue` / conditional skip) -/\n");
+    s.push_str(&format!("def fetchRequestsEveryInfo : Bool := {}\n", lean_bool(every_info)));
     s.push_str("end SafeNet.Gen.SelfEnc\n");
     Ok(s)
 }
